@@ -11,6 +11,17 @@ def gen_exec(r, tier):
     return ops
 
 
+def gen_monitor(r, tier):
+    """the real sensor monitor over a real command sensor whose command keeps failing for dozens of polls in a row (exits
+    non-zero, prints garbage, is not there): the monitor survives and stops when told (seed C19k: a back-off doubled the
+    polling interval per failure, the shift overflowed after 40-odd failures and Ticker.Reset panicked)"""
+    ops = []
+    for _ in range(3 if tier == "quick" else 20):
+        ops += ["#case sn monitor", f"sn.monitor win=10 avg=x40d3880000000000 val=x40e3880000000000 good={r.range(0, 3)} "
+                f"polls={r.range(60, 110)} rate_us={r.pick([200, 500, 1000])} cmd={r.pick(['fail', 'garbage', 'missing'])}"]
+    return ops
+
+
 class C19(Prop):
     id = "C19"
     lean_modules = ["Fan2go.Props.C19"]
@@ -24,12 +35,16 @@ class C19(Prop):
                    "WaitDelay after the deadline or after the child's exit (documented os/exec semantics, sampled by the stream)",
                    "which of EvalSymlinks / Stat fails when the file is swapped under the call is the scheduler's choice: the theorem quantifies over all of them (ev, st), the stream samples a rename race (ex.statrace)"]
     partial_note = "wall-clock behaviour is sampled: process scheduling, pipe buffering and zombie reaping cannot be exhibited by the model"
-    streams = [Stream("exec", gen_exec, parallel=4, timeout=1800)]
+    streams = [Stream("exec", gen_exec, parallel=4, timeout=1800), Stream("monitor", gen_monitor, parallel=3)]
 
     def oracle(self, name, ops, go):
         out = []
         for cops, cgo in cases(ops, go):
             for i, (op, g) in enumerate(zip(cops, cgo)):
+                if op.startswith("sn.monitor"):
+                    if not g.startswith("res=ok"):
+                        out.append(viol(f"the sensor monitor did not survive a command sensor that keeps failing ({g.split()[0]}): {op}", [cops[0], op], [cgo[0], g]))
+                    continue
                 if op.startswith("ex.dangling"):
                     if "panic" in g:
                         out.append(viol(f"external command call panicked on a path that cannot be resolved: {op} -> {g}", [cops[0], op], [cgo[0], g]))
@@ -80,6 +95,8 @@ class C19(Prop):
         for op, g in zip(ops, go):
             if op.startswith("ex.dangling"):
                 s.add((op, g))
+            if op.startswith("sn.monitor"):
+                s.add(("monitor", kv(op).get("cmd"), int(kv(op).get("polls", 0)) // 20))
             if op.startswith("ex.run") or op.startswith("ex.user"):
                 a = kv(op)
                 s.add((op.split()[0], a.get("beh"), a.get("kind"), int(a.get("timeout_ms", 0)) // 500, kv(g).get("res", "")[:6]))
